@@ -631,3 +631,10 @@ def extension_ownership(ctx):
 @rule("R13.8", "C13", "a transformer owns its extension: the object that collects the attribute flags is built fresh by its transformer and never handed to another one (a routine body compiled in between leaves no flags behind)", min_instances=2)
 def r13_8(ctx):
     extension_ownership(ctx)
+
+
+@rule("R13.9", "C13", "the NEW attribute follows the operand's spelling for every alias register: `<alias>_NEW` is a new-value read, also for the program counter", min_instances=12)
+def r13_9(ctx):
+    from .c07 import r07_7
+
+    r07_7(ctx)
